@@ -24,6 +24,7 @@ ASSUMPTIONS = [
     "scheduling points are the operations on shared state (queue operations, thread start/join/is_alive/termination); frame reads touch only reader-local state and are therefore not scheduling points (they are the fault-injection site)",
     "CPython's GIL and queue.Queue's own lock are the trusted base: only the protocol is explored, not memory-model effects; a free-running pass on the real queue.Queue re-runs the same bodies as a sanity check only",
     "a blocking call with a timeout / non-blocking call is modelled as an always-enabled point that raises Empty/Full when executed while it cannot be served",
+    "'labels-mv' grid points: a label set over two videos of different frame sizes (frames alternate between them); each frame must carry its own video index and original size",
     "bounds: N<=4, Q<=3, batch<=3 (quick); N<=6, Q<=4, batch<=4 (thorough); all (start,end) with 0<=start<=end<=N for VideoReader (plus None defaults)",
 ]
 
@@ -37,10 +38,11 @@ class Fault(Exception):
 class FakeVideo:
     """Duck-typed sio.Video: frame i is an (H, W, 1) uint8 array filled with value 10+i."""
 
-    def __init__(self, n, fault_at=None):
+    def __init__(self, n, fault_at=None, hw=None):
         self.n = n
         self.fault_at = fault_at
-        self.shape = (n, H, W, 1)
+        self.hw = hw or (H, W)
+        self.shape = (n, self.hw[0], self.hw[1], 1)
         self.reads = []
 
     def __len__(self):
@@ -52,7 +54,7 @@ class FakeVideo:
             raise Fault(f"injected read failure at frame {idx}")
         if not 0 <= idx < self.n:
             raise IndexError(idx)
-        return np.full((H, W, 1), 10 + idx, dtype=np.uint8)
+        return np.full((self.hw[0], self.hw[1], 1), 10 + idx, dtype=np.uint8)
 
 
 class FakeInst:
@@ -83,11 +85,19 @@ class FakeLF:
         return len(self.instances)
 
 
+HW2 = (4, 10)  # frame size of the second video in the multi-video label sets
+
+
 class FakeLabels:
-    def __init__(self, n, fault_at=None):
+    """Duck-typed sio.Labels.  multi=True: two videos of DIFFERENT frame sizes; labelled frame i lives in video i % 2
+    (global frame i is read through its own video's index i, so pixel values stay 10+i)."""
+
+    def __init__(self, n, fault_at=None, multi=False):
         self.video = FakeVideo(n, fault_at)
         self.videos = [self.video]
-        self.lfs = [FakeLF(self.video, i) for i in range(n)]
+        if multi:
+            self.videos.append(FakeVideo(n, fault_at, hw=HW2))
+        self.lfs = [FakeLF(self.videos[i % len(self.videos)], i) for i in range(n)]
 
     def __len__(self):
         return len(self.lfs)
@@ -219,14 +229,14 @@ def build(gp, s, real_queue=False):
         src = FakeVideo(n, fault)
         rd = vcls(src, fq, start, end)
     else:
-        src = FakeLabels(n, fault)
+        src = FakeLabels(n, fault, multi=(kind == "labels-mv"))
         rd = lcls(src, fq, instances_key=(kind == "labels+inst"))
     if not real_queue:
         rd._sched = s
     P = predictor_class()
     pred = P(
         preprocess=True,
-        preprocess_config={"batch_size": batch, "scale": 1.0, "is_rgb": False, "max_stride": 1, "max_height": None, "max_width": None},
+        preprocess_config={"batch_size": batch, "scale": 1.0, "is_rgb": False, "max_stride": 1, "max_height": (max(H, HW2[0]) if kind == "labels-mv" else None), "max_width": (max(W, HW2[1]) if kind == "labels-mv" else None)},
         pipeline=rd,
         inference_model=echo_model,
         instances_key=(kind == "labels+inst"),
@@ -258,6 +268,13 @@ def expected_frames(gp):
     return [(100 + i, 10 + i) for i in idxs]
 
 
+def expected_meta(gp, frame_idx):
+    """(orig_size, video_idx) the frame with this frame_idx must carry."""
+    if gp["kind"] == "labels-mv" and (frame_idx - 100) % 2 == 1:
+        return HW2, 1
+    return (H, W), 0
+
+
 def check_execution(gp, s, fq_log, batches, consumer_exc, rd):
     """Oracle for one complete execution. Returns error string or None."""
     if s.aborted == "deadlock":
@@ -275,7 +292,7 @@ def check_execution(gp, s, fq_log, batches, consumer_exc, rd):
     puts = [it for op, tid, it in fq_log if op == "put"]
     # stream put on the queue: frames then exactly one marker (items were snapshotted at operation time)
     pd, gd = puts, gets
-    want = [(f, p, (H, W)) for f, p in exp] + ["END"]
+    want = [(f, p, expected_meta(gp, f)[0]) for f, p in exp] + ["END"]
     if pd != want:
         return f"items put on the queue {pd} != expected {want}"
     if gd != want:
@@ -292,10 +309,11 @@ def check_execution(gp, s, fq_log, batches, consumer_exc, rd):
             return f"batch {bi} has {len(fi)} frames"
         for f, p, o in zip(fi, px, osz):
             got.append((f, p))
-            if o != (H, W):
-                return f"frame {f} carries orig_size {o}, expected {(H, W)}"
-        if any(int(v) != 0 for v in b["video_idx"]):
-            return f"batch {bi} has video_idx {b['video_idx']}"
+            if o != expected_meta(gp, f)[0]:
+                return f"frame {f} carries orig_size {o}, expected {expected_meta(gp, f)[0]}"
+        for f, v in zip(fi, b["video_idx"]):
+            if int(v) != expected_meta(gp, f)[1]:
+                return f"frame {f} carries video_idx {int(v)}, expected {expected_meta(gp, f)[1]}"
     if got != exp:
         return f"frames processed by the consumer {got} != expected {exp}"
     nb = -(-len(exp) // gp["batch"])
@@ -340,7 +358,7 @@ def grid(tier):
                     lo, hi = (0 if st is None else st), (n if en is None else en)
                     for fault in [None] + list(range(lo, hi)):
                         pts.append({"kind": "video", "n": n, "start": st, "end": en, "q": q, "batch": b, "fault": fault})
-                for kind in ("labels", "labels+inst"):
+                for kind in ("labels", "labels+inst", "labels-mv"):
                     for fault in [None] + list(range(n)):
                         pts.append({"kind": kind, "n": n, "start": None, "end": None, "q": q, "batch": b, "fault": fault})
     return pts
